@@ -844,6 +844,13 @@ caf_read_strings (SF_PRIVATE * psf, sf_count_t chunk_size)
 	char *key, *value ;
 	uint32_t count, hash ;
 
+	/* The header buffer cannot hold more than this, and the byte count is handed on as an int. */
+	if (chunk_size < 0 || chunk_size > 100 * 1024)
+	{	psf_log_printf (psf, " *** 'info' chunk too big (%D), skipping.\n", chunk_size) ;
+		psf_binheader_readf (psf, "j", (size_t) chunk_size) ;
+		return 0 ;
+		} ;
+
 	if ((buf = malloc (chunk_size + 1)) == NULL)
 		return (psf->error = SFE_MALLOC_FAILED) ;
 
